@@ -368,7 +368,18 @@ impl NodeSuite {
                 // nseal <i> <addr> <hex plaintext | ->: node i, as a key holder, seals a raw plaintext (no type byte) for its peer
                 let i: u16 = t.get(1)?.parse().ok()?;
                 let a = parse_addr(t.get(2)?)?;
-                let data = if *t.get(3)? == "-" { vec![] } else { unhex(t.get(3)?)? };
+                // `<idN>` inside the hex text stands for the node id of node N (node ids are random: the script cannot know them)
+                let mut text = t.get(3)?.to_string();
+                while let Some(p0) = text.find("<id") {
+                    let p1 = p0 + text[p0..].find('>')?;
+                    let port: u16 = text[p0 + 3..p1].parse().ok()?;
+                    let id = match self.nodes.get(&port) {
+                        Some(sn) => with_node!(&sn.node, n, { n.v_view(&|_| String::new()).node_id }),
+                        None => [0u8; 16],
+                    };
+                    text = format!("{}{}{}", &text[..p0], hex(&id), &text[p1 + 1..]);
+                }
+                let data = if text == "-" { vec![] } else { unhex(&text)? };
                 let sn = self.nodes.get_mut(&i)?;
                 let ok = with_node!(&mut sn.node, n, { n.v_seal_raw(a, &data) });
                 let ev = self.collect(i);
